@@ -246,6 +246,62 @@ theorem ping_pong (cfg : Cfg) (evs : List Ev) (hq : Quiescent (run cfg init evs)
     rw [List.count_filter rfl]
   · rfl
 
+/-- **ping_never_dropped** (the queue-full case of `ping_pong` made explicit) — on
+    graphql-transport-ws (fix 01) a ping handled after init while the write loop is alive is never
+    dropped, whatever the state of the 100-slot buffer: either its pong is accepted by the buffer at
+    once, or — the buffer is full, e.g. behind a client that is not reading — the read loop blocks in
+    `sendMessage` with exactly that pong pending (back-pressure, like every other send of the read
+    loop). A non-blocking "send or forget" would violate this. -/
+theorem ping_never_dropped (cfg : Cfg) (s : Sys) (hp : cfg.proto = .tws) (hf : cfg.pingFix = true)
+    (hd : s.didInit = true) (hr : s.reader = .reading) (ho : s.connOpen = true)
+    (hg : (cfg.sendFix && writerGone s) = false) :
+    (enqOf (stepS cfg s (.client .ping)).log = enqOf s.log ++ [.pong] ∧ (stepS cfg s (.client .ping)).reader = .reading) ∨
+    (enqOf (stepS cfg s (.client .ping)).log = enqOf s.log ∧
+      (stepS cfg s (.client .ping)).reader = .sending [.pong] false none ∧ cfg.cap ≤ s.outgoing.length) := by
+  have hstep : stepS cfg s (.client .ping) = pump cfg (emit s (.recv .ping s.didInit)) [.pong] false none := by
+    show (if s.reader == .reading && s.connOpen then handle cfg s .ping else s) = _
+    simp [hr, ho, handle, hp, hf, emit, hd]
+  rw [hstep]
+  have hg' : (cfg.sendFix && writerGone (emit s (.recv .ping s.didInit))) = false := hg
+  unfold pump trySend
+  simp only [hg', Bool.false_eq_true, ite_false]
+  by_cases hroom : (emit s (.recv .ping s.didInit)).outgoing.length < cfg.cap
+  · left
+    simp only [hroom, ite_true]
+    unfold pump doneSending
+    simp [emit, enqOf]
+  · right
+    simp only [hroom, ite_false]
+    refine ⟨by simp [emit, enqOf], by simp, ?_⟩
+    exact Nat.le_of_not_lt hroom
+
+/-- … and the blocked pong goes out as soon as the write loop has freed a slot. -/
+theorem blocked_pong_is_sent (cfg : Cfg) (s : Sys) (hr : s.reader = .sending [.pong] false none)
+    (hroom : s.outgoing.length < cfg.cap) (hg : (cfg.sendFix && writerGone s) = false) :
+    enqOf (stepS cfg s .readerStep).log = enqOf s.log ++ [.pong] ∧ (stepS cfg s .readerStep).reader = .reading := by
+  have hstep : stepS cfg s .readerStep = pump cfg s [.pong] false none := by
+    show (match s.reader with
+      | .reading => if !s.connOpen then readerExit s else s
+      | .sending p fc tc => pump cfg s p fc tc
+      | .done => s) = _
+    rw [hr]
+  rw [hstep]
+  unfold pump trySend
+  simp only [hg, Bool.false_eq_true, ite_false, hroom, ite_true]
+  unfold pump doneSending
+  simp [emit, enqOf]
+
+/-- A ping that meets a full buffer (2 slots instead of 100): ack and a subscription result fill the
+    buffer, the ping blocks the read loop, the write loop frees a slot, the pong is queued and written. -/
+example :
+    let cfg : Cfg := { proto := .tws, cap := 2 }
+    let s1 := run cfg init [.client (.init true), .client (.start 1 .subscription), .source 0 (.event 5), .subTaskStep 0,
+                            .client .ping]
+    let s2 := run cfg s1 [.writerStep .outgoing, .readerStep, .writerStep .outgoing, .writerStep .outgoing]
+    (s1.outgoing.length = 2 ∧ s1.reader = .sending [.pong] false none) ∧
+    (wireOf s2.log = [.ack, .result 1 0 5, .pong] ∧ s2.reader = .reading) := by
+  decide
+
 /-- **blocked_sender_forever** (F-08c, the code before fix 03) — from a state in which the read
     loop is blocked in `sendMessage` on the full buffer after the write loop has returned, no
     schedule ever reaches Closed: HandleClose never runs (no source is stopped, the connection
